@@ -125,14 +125,27 @@ def handle(req):
 def replay(req):
     """call the real function on concrete inputs and evaluate the contract clause natively"""
     f = eval(req["func"], NS)
+    sc = NS.get("spec")
+    if sc is not None and hasattr(sc, "_reset_entropy"):
+        sc._reset_entropy()
     args = {k: dec(a) for k, a in req["args"].items()}
     out = {"ok": True}
+    import os as _os
+    real_urandom = _os.urandom
+
+    def counted_urandom(n):
+        if sc is not None and hasattr(sc, "_GLOBAL_ENTROPY_CALLS"):
+            sc._GLOBAL_ENTROPY_CALLS[0] += 1
+        return real_urandom(n)
+    _os.urandom = counted_urandom
     try:
         r = f(**args)
         out.update(outcome="return", value=enc(r))
     except BaseException as e:
         r = None
         out.update(outcome="raise", exc=type(e).__name__, msg=str(e)[:200])
+    finally:
+        _os.urandom = real_urandom
     env = dict(args)
     env.update(spec=NS.get("spec"), implies=lambda a, b: (not a) or b, result=r, old=lambda x: x)
     cl = req["clause"]
@@ -193,7 +206,18 @@ def gen_value(t, rng):
     if t.startswith("bytes:"):
         n = int(t[6:])
         return bytes(rng.randrange(256) for _ in range(n))
+    if t == "entropy":
+        # replayable entropy function; a third of them start with all-ones blocks (forces rejections / re-draws)
+        return NS["spec"].ModelEntropy(seed=rng.randrange(1 << 30), ones=rng.choice([0, 0, 1, 2, 5]))
     raise ValueError("no generator for type " + t)
+
+
+def enc_arg(v):
+    """encode a generated argument for transport / re-decoding (entropy functions as a python expression)"""
+    sc = NS.get("spec")
+    if sc is not None and isinstance(v, getattr(sc, "ModelEntropy", ())):
+        return {"py": "spec.ModelEntropy(%r, seed=%d, ones=%d)" % (v.calls, v.seed, v.ones)}
+    return enc(v)
 
 
 def search(req):
@@ -249,14 +273,14 @@ def search(req):
             a = rng.choice(bkeys)
             args[a] = bytes(rng.choice([0, 1])) + args[a] if False else (b"\x00" + args[a])[: rng.choice([1, 2, 3, 33])]
         prev = dict(args)
-        r = replay(dict(func=req["func"], args={k: enc(v) for k, v in args.items()}, clause=req["clause"], requires=req.get("requires", [])))
+        r = replay(dict(func=req["func"], args={k: enc_arg(v) for k, v in args.items()}, clause=req["clause"], requires=req.get("requires", [])))
         if "clause_error" in r:
             return {"ok": True, "found": False, "tried": tried, "reason": "clause not evaluable natively: " + r["clause_error"]}
         if not r.get("precondition_holds", False):
             continue
         tried += 1
         if r.get("clause_holds") is False:
-            return {"ok": True, "found": True, "args": {k: enc(v) for k, v in args.items()}, "answer": r, "tried": tried}
+            return {"ok": True, "found": True, "args": {k: enc_arg(v) for k, v in args.items()}, "answer": r, "tried": tried}
     return {"ok": True, "found": False, "tried": tried}
 
 
